@@ -237,6 +237,20 @@ def mutations(xml: str, rnd, n):
                 if sib:
                     f = sib[0]
                     out.append((f"elements {e.group(2)} swapped", 1, xml[:e.start()] + f.group(0) + e.group(0) + xml[f.end():]))
+    # the signature itself: emptied, cut to a prefix, removed - alone and together with a change of the content
+    sm = re.search(r' Signature="([^"]*)"', xml)
+    if sm:
+        val = sm.group(1)
+        raw = base64.b64decode(val)
+        variants = [("signature emptied", xml[:sm.start(1)] + xml[sm.end(1):]), ("signature removed", xml[:sm.start()] + xml[sm.end():]),
+                    ("signature cut to 8 octets", xml[:sm.start(1)] + base64.b64encode(raw[:8]).decode() + xml[sm.end(1):]),
+                    ("signature cut to 15 octets", xml[:sm.start(1)] + base64.b64encode(raw[:15]).decode() + xml[sm.end(1):]),
+                    ("signature extended", xml[:sm.start(1)] + base64.b64encode(raw + b"\x00").decode() + xml[sm.end(1):])]
+        for kind, text in variants:
+            out.append((kind, 1, text))
+            pm = re.search(r' Project="([^"]*)"', text)
+            if pm:
+                out.append((kind + " and value of Project changed", 1, text[:pm.start(1)] + "x" + text[pm.start(1):]))
     # changes outside the signed content: white space and a comment
     out.append(("white space", 0, xml.replace("\n  <", "\n\t   <")))
     out.append(("comment", 0, xml.replace("?>\n", "?>\n<!-- note -->\n", 1)))
@@ -244,6 +258,13 @@ def mutations(xml: str, rnd, n):
 
 
 def run(ck):
+    import functools
+
+    from xknx.secure import keyring as kmod
+
+    # PBKDF2 with 65536 iterations runs twice per load; it is a pure function of the password: memoised for the run
+    if not hasattr(kmod.hash_keyring_password, "cache_info"):
+        kmod.hash_keyring_password = functools.lru_cache(maxsize=None)(kmod.hash_keyring_password)
     rnd = random.Random(ck.seed)
     tlc.mc(ck, "secure/Keyring_MC", "secure/Keyring_MC", require_actions=False, timeout=900)
     dev = tlc.mc(ck, "secure/Keyring_MC", "secure/Keyring_Dev", expect_error=True, record=False, coverage=False)
@@ -269,7 +290,12 @@ def run(ck):
                     same = 0
             recs.append({"t": "tamper", "kind": kind.split(" ")[0], "signed_change": signed, "verdict": "accepted" if out == "ok" else out, "content_same": same})
             ex.append(f"{name}: {kind}")
+        emptied = tmp / "e.knxkeys"
+        emptied.write_text(re.sub(r' Signature="[^"]*"', ' Signature=""', xml, count=1), encoding="utf-8")
         for wrong in (password + "x", password.upper() if password.upper() != password else password + " ", ""):
+            out, _ = load(emptied, wrong)
+            recs.append({"t": "tamper", "kind": "password", "signed_change": 1, "verdict": "accepted" if out == "ok" else out, "content_same": 0})
+            ex.append(f"{name}: signature emptied and password {wrong!r} instead of {password!r}")
             out, _ = load(tmp / "k.knxkeys" if name.startswith("generated") else name, wrong)
             recs.append({"t": "tamper", "kind": "password", "signed_change": 1, "verdict": "accepted" if out == "ok" else out, "content_same": 0})
             ex.append(f"{name}: password {wrong!r} instead of {password!r}")
